@@ -415,6 +415,10 @@ def c08_judge(world: macrolib.World, out: dict) -> list[dict]:
         if ent is None:
             problems.append({"clause": "macro-op-has-macro-entry", "detail": f"op {off} t_{macro}_{variant}_{n} has {'a direct' if str(off) in direct else 'no'} entry"})
             continue
+        if str(off) in direct:
+            # an op that comes from a macro is described by its macro entry alone: a second, direct entry under the same
+            # offset (which look-ups prefer) says it was written in the compiled file
+            problems.append({"clause": "macro-op-has-no-direct-entry", "detail": f"op {off} t_{macro}_{variant}_{n} also has the direct entry {direct[str(off)]}"})
         rel, mname = ent[0], ent[1]
         defining = v._resolve(world.file_of[macro])[0]
         if defining != main_real:
